@@ -328,7 +328,17 @@ func (g *genState) rewriteOwn(id uuid.UUID, d *Val) {
 				setPath(d, ix.path, vStr(g.variantOf(cur.S)))
 			}
 		case ixStrArr:
-			if cur.K == kArr && len(cur.A) > 0 {
+			if cur.K == kArr && len(cur.A) > 0 && cur.A[0].K == kStr && g.r.IntN(4) == 0 {
+				// the same words in the same order behind other element boundaries: two neighbours become one element
+				// "x y", or an element with a blank is split there (what the two arrays print as is the same)
+				a := append([]Val{}, cur.A...)
+				if len(a) >= 2 && a[1].K == kStr {
+					a = append([]Val{vStr(a[0].S + " " + a[1].S)}, a[2:]...)
+				} else if i := strings.Index(a[0].S, " "); i > 0 && i < len(a[0].S)-1 {
+					a = append([]Val{vStr(a[0].S[:i]), vStr(a[0].S[i+1:])}, a[1:]...)
+				}
+				setPath(d, ix.path, Val{K: kArr, A: a})
+			} else if cur.K == kArr && len(cur.A) > 0 {
 				a := append([]Val{}, cur.A...)
 				g.r.Shuffle(len(a), func(i, j int) { a[i], a[j] = a[j], a[i] })
 				if g.r.IntN(2) == 0 {
